@@ -5,6 +5,7 @@ import (
 	"bufio"
 	"context"
 	"encoding/json"
+	"errors"
 	"flag"
 	"fmt"
 	"os"
@@ -60,8 +61,18 @@ func handler(tr *vtrace.Writer, h int, beh string) app.HandlerFunc {
 			next(c, ctx)
 			next(c, ctx)
 		case "AbortWithStatus":
+			// the whole AbortWith* family has the chain semantics of Abort: the handler's position picks the member
 			ev("Abort")
-			ctx.AbortWithStatus(403)
+			switch h % 4 {
+			case 0:
+				ctx.AbortWithStatus(403)
+			case 1:
+				ctx.AbortWithMsg("stop", 403)
+			case 2:
+				ctx.AbortWithStatusJSON(403, map[string]int{"h": h})
+			default:
+				ctx.AbortWithError(403, errors.New("stop")) //nolint:errcheck
+			}
 		default:
 			panic("unknown behaviour " + beh)
 		}
@@ -117,7 +128,9 @@ func runBuild(tr *vtrace.Writer, c *Case) {
 		return func(c context.Context, ctx *app.RequestContext) { tr.Emit("Mw", vtrace.Rec{"m": m}) }
 	}
 	rh := func(kind string, r, k int) app.HandlerFunc {
-		return func(c context.Context, ctx *app.RequestContext) { tr.Emit("Handler", vtrace.Rec{"kind": kind, "r": r, "k": k}) }
+		return func(c context.Context, ctx *app.RequestContext) {
+			tr.Emit("Handler", vtrace.Rec{"kind": kind, "r": r, "k": k})
+		}
 	}
 	paths := []string{}
 	defer func() {
